@@ -1,0 +1,235 @@
+//! Verification hooks (cargo feature `verif-hooks`, off by default).
+//!
+//! Nothing in this module has any effect unless the feature is enabled *and* a
+//! harness arms it through the functions below. All state is thread-local.
+//!
+//! * I/O event sink: the rolling directory layer reports every file-system
+//!   effect it performs (create, set_len, write, flush, fsync, dir-sync, unlink).
+//! * Fault plan: makes the n-th recovery I/O call fail with a chosen error.
+//! * Step counter: counts blocks loaded by the rolling reader.
+//! * `verif_api`: re-exports of the record / frame layers so that they can be
+//!   driven over in-memory blocks.
+
+use std::cell::RefCell;
+use std::io;
+
+/// Number of bytes of a WAL file in this build.
+pub const FILE_NUM_BYTES: usize = crate::rolling::VERIF_FILE_NUM_BYTES;
+
+pub(crate) const fn blocks_per_file_from_env(value: Option<&str>) -> usize {
+    match value {
+        None => 4,
+        Some(text) => {
+            let bytes = text.as_bytes();
+            let mut idx = 0;
+            let mut res = 0usize;
+            while idx < bytes.len() {
+                let byte = bytes[idx];
+                assert!(byte >= b'0' && byte <= b'9');
+                res = res * 10 + (byte - b'0') as usize;
+                idx += 1;
+            }
+            assert!(res >= 1);
+            res
+        }
+    }
+}
+
+#[derive(Debug, Clone, PartialEq, Eq)]
+pub enum Event {
+    /// `create_new` succeeded for that file name (the file is empty).
+    Create { name: String },
+    /// `set_len` succeeded.
+    SetLen { name: String, len: u64 },
+    /// An existing WAL file was opened (reader, or writer re-using a file).
+    OpenFile { name: String },
+    /// `remove_file` succeeded.
+    Unlink { name: String },
+    /// The directory was fsynced.
+    DirSync,
+    /// A reader was turned into a writer positioned at `offset` of `name`.
+    WriterAt { name: String, offset: u64 },
+    /// The writer cursor moved forward without writing.
+    Forward { num_bytes: u64 },
+    /// `write_all` of `bytes` into the `BufWriter` of file `name` at file offset `offset`.
+    /// `buffered_before` / `buffered_after`: bytes pending in the `BufWriter` before / after.
+    Write {
+        name: String,
+        offset: u64,
+        bytes: Vec<u8>,
+        buffered_before: usize,
+        buffered_after: usize,
+    },
+    /// The `BufWriter` of file `name` was flushed.
+    Flush { name: String },
+    /// `sync_data` of file `name` returned.
+    Fsync { name: String },
+    /// Harness-provided marker.
+    Mark { id: u64, kind: u8 },
+}
+
+#[derive(Debug, Clone, Copy, PartialEq, Eq, Hash, PartialOrd, Ord)]
+pub enum Site {
+    ReadDir,
+    DirEntry,
+    FileType,
+    OpenFile,
+    ReadFirstBlock,
+    ReadBlock,
+}
+
+pub const ALL_SITES: [Site; 6] = [
+    Site::ReadDir,
+    Site::DirEntry,
+    Site::FileType,
+    Site::OpenFile,
+    Site::ReadFirstBlock,
+    Site::ReadBlock,
+];
+
+#[derive(Debug, Clone)]
+pub struct FaultPlan {
+    /// Fail the call number `nth` (0-based, counted over all sites in call order).
+    pub nth: u64,
+    /// Keep failing every later call at the same site kind.
+    pub persistent: bool,
+    pub kind: io::ErrorKind,
+}
+
+#[derive(Debug, Clone, Default)]
+pub struct FaultStats {
+    /// Site kinds passed, in call order (only recorded while `count_sites` is on).
+    pub sites: Vec<Site>,
+    /// Total number of calls to `fault`.
+    pub calls: u64,
+    /// Number of injected failures.
+    pub fired: u64,
+    /// Site at which the first failure was injected.
+    pub fired_site: Option<Site>,
+}
+
+/// Payload of the panic raised when recovery keeps re-entering a failing site.
+pub const LIVELOCK_MARKER: &str = "verif-hooks: livelock on persistent I/O fault";
+const LIVELOCK_THRESHOLD: u64 = 10_000;
+
+#[derive(Default)]
+struct State {
+    recording: bool,
+    events: Vec<Event>,
+    fault_plan: Option<FaultPlan>,
+    fault_stats: FaultStats,
+    count_sites: bool,
+    steps: u64,
+}
+
+thread_local! {
+    static STATE: RefCell<State> = RefCell::new(State::default());
+}
+
+pub fn start_recording() {
+    STATE.with(|state| {
+        let mut state = state.borrow_mut();
+        state.recording = true;
+        state.events.clear();
+    });
+}
+
+pub fn stop_recording() {
+    STATE.with(|state| state.borrow_mut().recording = false);
+}
+
+pub fn take_events() -> Vec<Event> {
+    STATE.with(|state| std::mem::take(&mut state.borrow_mut().events))
+}
+
+pub fn mark(id: u64, kind: u8) {
+    emit(|| Event::Mark { id, kind });
+}
+
+#[inline]
+pub(crate) fn emit(make_event: impl FnOnce() -> Event) {
+    STATE.with(|state| {
+        let mut state = state.borrow_mut();
+        if state.recording {
+            let event = make_event();
+            state.events.push(event);
+        }
+    });
+}
+
+pub fn set_fault_plan(plan: Option<FaultPlan>, count_sites: bool) {
+    STATE.with(|state| {
+        let mut state = state.borrow_mut();
+        state.fault_plan = plan;
+        state.fault_stats = FaultStats::default();
+        state.count_sites = count_sites;
+    });
+}
+
+pub fn fault_stats() -> FaultStats {
+    STATE.with(|state| state.borrow().fault_stats.clone())
+}
+
+/// Called at the top of every recovery I/O site.
+pub(crate) fn fault(site: Site) -> io::Result<()> {
+    let (fire, livelock) = STATE.with(|state| {
+        let mut state = state.borrow_mut();
+        let call_idx = state.fault_stats.calls;
+        state.fault_stats.calls += 1;
+        if state.count_sites {
+            state.fault_stats.sites.push(site);
+        }
+        let Some(plan) = state.fault_plan.clone() else {
+            return (None, false);
+        };
+        let fire = if call_idx == plan.nth {
+            true
+        } else {
+            plan.persistent && call_idx > plan.nth && state.fault_stats.fired_site == Some(site)
+        };
+        if !fire {
+            return (None, false);
+        }
+        state.fault_stats.fired += 1;
+        if state.fault_stats.fired_site.is_none() {
+            state.fault_stats.fired_site = Some(site);
+        }
+        let livelock = state.fault_stats.fired > LIVELOCK_THRESHOLD;
+        (Some(plan.kind), livelock)
+    });
+    if livelock {
+        panic!("{}", LIVELOCK_MARKER);
+    }
+    match fire {
+        Some(kind) => Err(io::Error::new(kind, "verif-hooks: injected fault")),
+        None => Ok(()),
+    }
+}
+
+pub fn reset_steps() {
+    STATE.with(|state| state.borrow_mut().steps = 0);
+}
+
+pub fn steps() -> u64 {
+    STATE.with(|state| state.borrow().steps)
+}
+
+pub(crate) fn step() {
+    STATE.with(|state| state.borrow_mut().steps += 1);
+}
+
+/// Record / frame layer, so that it can be driven over in-memory blocks.
+pub mod verif_api {
+    pub use crate::frame::{FrameReader, FrameWriter, ReadFrameError};
+    pub use crate::recordlog::{RecordReader, RecordWriter};
+
+    /// A `RecordWriter` over any `BlockWrite`.
+    pub fn record_writer<W: crate::BlockWrite + Unpin>(wrt: W) -> RecordWriter<W> {
+        FrameWriter::create(wrt).into()
+    }
+
+    /// Gives back the `BlockWrite` of a `RecordWriter`.
+    pub fn underlying<W: crate::BlockWrite + Unpin>(wrt: &RecordWriter<W>) -> &W {
+        wrt.get_underlying_wrt()
+    }
+}
